@@ -8,4 +8,6 @@ mkdir -p "$HERE/bin" "$HERE/evidence" "$HERE/replays"
 # warm the cache: library + harness packages that need no hooks
 (cd "$HERE/mc" && go build ./drv/... ./ref... 2>/dev/null || true)
 (cd /repo && go build ./... >/dev/null 2>&1 || true)
+# warm the race-detector build of the standard library and the library packages (C15's second build)
+(cd /repo && go build -race ./... >/dev/null 2>&1 || true)
 echo "setup ok"
